@@ -40,8 +40,9 @@ PALETTE = {
 }
 NONE = -1
 CLAUSES = {1: "merge_layouts raised", 2: "ids / geometry / line order of a layout changed",
-           3: "the mean character confidence computed by the script differs from the exact value defined by the logits",
-           4: "merging the merged result again changed it"}
+           3: "the confidence the script computes for an engine's line is not the mean of the library's character confidences of its transcription",
+           4: "merging the merged result again changed it",
+           5: "the mean character confidence differs from the exact value the logits were built to realise"}
 
 
 def load_merge():
@@ -53,6 +54,7 @@ def load_merge():
 
 
 _MG = None
+_GLC = None
 _CFG = {}
 
 
@@ -100,7 +102,7 @@ def build_line(lid, engine, level, variant, empty_none):
         w[0, chars.index(LETTERS[engine][0])] = 5
         w[0, blank] = 3
         rows = w
-        num, den = 1, 2
+        num, den = 0, 0          # the value of the fallback is not part of the statement: no exact expectation (den = 0)
     elif style == "tr":
         text = LETTERS[engine][:len(spec)]
         line.transcription = text
@@ -183,7 +185,14 @@ def _merge_case(case):
                 with contextlib.redirect_stdout(sink):
                     cf = _MG.get_confidences(line)
                 mean = float(cf.mean()) if cf.size > 0 else None
-                per.append({"mean": mean, "text": line.transcription, "logits": line.logits.copy(), "chars": list(line.characters),
+                refdev = 0
+                if mean is not None:
+                    try:        # the library's own per-character confidences for the same transcription (C16's subject)
+                        idx = np.asarray([list(line.characters).index(ch) for ch in line.transcription])
+                        refdev = int(min(2e9, abs(float(np.mean(_GLC(line, idx))) - mean) * 1e12))
+                    except ValueError:
+                        refdev = 0          # not alignable: the script's fallback constant is not part of the statement
+                per.append({"mean": mean, "refdev": refdev, "text": line.transcription, "logits": line.logits.copy(), "chars": list(line.characters),
                             "own_conf": line.transcription_confidence})
             orig.append(per)
         frames = [snapshot_frame(copy.deepcopy(p)) for p in layouts]
@@ -208,6 +217,7 @@ def _merge_case(case):
                 "conf": _scale(means),
                 "obs": [0 if v is None else int(round(v * 1e6)) for v in means],
                 "num": [metas[e][k][0] for e in range(ne)], "den": [metas[e][k][1] for e in range(ne)],
+                "refdev": [orig[e][k]["refdev"] for e in range(ne)],
                 "tx": [e + 1 for e in range(ne) if orig[e][k]["text"] == m.transcription],
                 "lg": [e + 1 for e in range(ne) if same_logits(orig[e][k]["logits"], m.logits)],
                 "ch": [e + 1 for e in range(ne) if orig[e][k]["chars"] == list(m.characters)],
@@ -222,7 +232,8 @@ def _merge_case(case):
         if isinstance(ex, KeyboardInterrupt):
             raise
         rec["outcome"] = "exception:" + type(ex).__name__
-        rec["lines"] = [{"conf": [0] * ne, "obs": [0] * ne, "num": [0] * ne, "den": [1] * ne, "tx": [], "lg": [], "ch": [], "rec": 3}
+        rec["lines"] = [{"conf": [0] * ne, "obs": [0] * ne, "num": [0] * ne, "den": [1] * ne, "refdev": [0] * ne, "tx": [], "lg": [], "ch": [],
+                         "rec": 3}
                         for _ in range(nl)]
     return rec
 
@@ -240,9 +251,11 @@ def cases_of(c, rng):
 
 
 def execute(c, cases):
-    global _MG, _CFG
+    global _MG, _CFG, _GLC
     if _MG is None:
         _MG = load_merge()
+        from pero_ocr.core.confidence_estimation import get_line_confidence
+        _GLC = get_line_confidence
     _CFG = dict(c)
     from pero_ocr.core.force_alignment import force_align
     try:        # warm the numba kernel before forking (only the compilation matters)
@@ -252,9 +265,24 @@ def execute(c, cases):
     return pmap(_merge_case, cases, procs=6)
 
 
+def tconsts(c, strict):
+    k = consts_of(c)
+    k["ExactMeans"] = bool(strict)
+    return k
+
+
 def judge(ctx, c, traces):
-    acc, rej = ctx.validate("EngineMerge_Trace", traces, constants=consts_of(c), shards=min(6, max(1, len(traces) // 300)),
+    acc, rej = ctx.validate("EngineMerge_Trace", traces, constants=tconsts(c, False), shards=min(6, max(1, len(traces) // 300)),
                             label="EngineMerge_Trace " + _lab(c))
+    # drift level: the same executions with the exact-rational expectation of the realised confidences
+    bad = {i for i, _ in rej}
+    good = [tr for i, tr in enumerate(traces) if i not in bad]
+    before = ctx.traces_validated
+    _, rej2 = ctx.validate("EngineMerge_Trace", good, constants=tconsts(c, True), shards=min(6, max(1, len(good) // 300)),
+                           label="EngineMerge_Trace (exact means, drift only) " + _lab(c))
+    ctx.traces_validated = before
+    for i, clause in rej2:
+        ctx.model_drift("clause %d: %s" % (clause, CLAUSES.get(clause, "?")), 1, {"cfg": _lab(c), "trace": good[i]})
     for tr in traces:
         nt = any(len([v for v in ln["conf"] if v >= 4]) >= 2 for ln in tr["lines"])       # at least two positive engines compete
         ctx.count(1, (_lab(c), tr["kind"], repr(tr["assign"]), tr["vseed"]) if nt else None)
@@ -270,7 +298,7 @@ def judge(ctx, c, traces):
             sig = "selection"
         else:
             what = CLAUSES.get(clause, "?")
-            sig = {1: "exception", 2: "ids-geometry", 3: "mean-confidence", 4: "idempotence"}.get(clause, "clause%d" % clause)
+            sig = {1: "exception", 2: "ids-geometry", 3: "script-confidence", 4: "idempotence"}.get(clause, "clause%d" % clause)
         ctx.violation({"cfg": c, "case": {"kind": tr["kind"], "assign": tr["assign"], "vseed": tr["vseed"]}, "clause": clause}, sig,
                       "%s; %s kind=%s levels(16ths, -1 = empty) per engine=%s outcome=%s" % (what, _lab(c), tr["kind"], tr["assign"], tr["outcome"]))
     return acc, rej
@@ -312,7 +340,7 @@ def run(ctx):
                         ln["lg"] = [1]          # the logits stayed those of the first engine although another engine won
                         break
                 return tr
-            ctx.selftest_corrupt("EngineMerge_Trace", good, corrupt, constants=consts_of(c))
+            ctx.selftest_corrupt("EngineMerge_Trace", good, corrupt, constants=tconsts(c, False))
         first = False
     # self-merge: a result merged with itself (same object and an equal copy)
     c2 = {"NEngines": 2, "NLines": 2, "levels": [NONE, 0, 4, 8, 12], "cap": None}
